@@ -1575,10 +1575,10 @@ def fam_repeated(ctx, k):
 FAMILIES = [
     Family("directed", fam_directed, quick=4, thorough=4),
     Family("exhaustive-small", fam_exhaustive_small, quick=16, thorough=48, exhaustive=True),
-    Family("random-linear", fam_random_linear, quick=1100, thorough=44000, budget={"quick": 40, "thorough": 480}),
-    Family("random-eigen", fam_random_eigen, quick=400, thorough=16000, budget={"quick": 25, "thorough": 420}),
-    Family("mpc", fam_mpc, quick=500, thorough=20000, budget={"quick": 15, "thorough": 300}),
-    Family("fem-views", fam_fem_views, quick=180, thorough=6400, budget={"quick": 45, "thorough": 540}),
+    Family("random-linear", fam_random_linear, quick=1500, thorough=44000, budget={"quick": 60, "thorough": 600}),
+    Family("random-eigen", fam_random_eigen, quick=550, thorough=16000, budget={"quick": 30, "thorough": 480}),
+    Family("mpc", fam_mpc, quick=700, thorough=20000, budget={"quick": 20, "thorough": 300}),
+    Family("fem-views", fam_fem_views, quick=240, thorough=6400, budget={"quick": 60, "thorough": 600}),
     Family("formats", fam_formats, quick=24, thorough=480),
     Family("dtype-mix", fam_dtype_mix, quick=40, thorough=1200),
     Family("repeated-index", fam_repeated, quick=30, thorough=900),
